@@ -131,7 +131,7 @@ int main(int argc, char** argv) {
    for (auto& rc : fams) for (int abbr = 1; abbr >= 0; --abbr) {
       RCfg r = rc; r.cfg.abbr = abbr != 0;
       bool pair = r.family.find('+') != std::string::npos;
-      int depth = pair ? 3 : (th ? 4 : 3);
+      int depth = pair ? (vf::deep() ? 4 : 3) : (vf::deep() ? 5 : th ? 4 : 3);
       if (!g_c03) {
          if (!vf::want_case()) continue;
          vf::note(r.family + " " + r.cfg.text()); ++configs;
